@@ -457,11 +457,56 @@ def shared_cases():
     return st.tuples(streams, st.integers(0, 15), st.integers(0, 15), st.sampled_from(["emit", "emit", "serialize", "dump"]))
 
 
+# ------------------------------------------------------------------------------------------------
+# streams whose documents leave construction state behind (instances with __setstate__, shared state, recursion)
+
+def eval_stateful(case):
+    import yaml
+    from checks import c13
+    from vlib.c11_pool import summarize
+    c13._paths()
+    docs, block, _ = case
+    text, roots, cl13, through, level, _d = c13.render(case)
+    singles = [c13.render(([d], block, None))[0] for d in docs]
+    cl = {"stateful-stream", "docs=%d" % len(docs)}
+    failures = []
+    evals = 0
+    for lname, L in c13.loader_legs(level):
+        evals += 1 + len(singles)
+
+        def run(t):
+            try:
+                return ("ok", [summarize(o) for o in yaml.load_all(t, Loader=L)])
+            except yaml.YAMLError as e:
+                return ("exc", type(e).__name__)
+            except RecursionError:
+                raise
+            except Exception as e:
+                return ("exc", "non-yaml-error:%s" % exc_key(e))
+        whole = run(text)
+        parts = [run(t) for t in singles]
+        if any(p[0] == "exc" for p in parts):
+            cl.add("stateful-stream:a-document-is-rejected-alone")
+            continue
+        alone = [x for p in parts for x in p[1]]
+        if whole[0] == "exc":
+            failures.append(Failure("stream-rejected-but-documents-load:%s:load:%s" % (lname, whole[1]), "text=%r" % text[:400]))
+        elif whole[1] != alone:
+            failures.append(Failure("stream-differs-from-documents:%s:load" % lname, "alone %.300r\nin stream %.300r\ntext=%r" % (alone, whole[1], text[:400])))
+    return Eval(failures, sorted(cl), nontrivial=True, ident=text, evals=evals, sample={"text": text[:300]})
+
+
+def stateful_cases():
+    from checks import c13
+    return c13.stateful_then_recursive_cases()
+
+
 def arms(tier):
     return [Arm("histories", eval_history, histories, quick=1200, thorough=40000),
             Arm("focused", eval_history, focused_histories, quick=1200, thorough=40000),
             Arm("streams", eval_stream, stream_cases, quick=3000, thorough=150000),
-            Arm("shared-arguments", eval_shared, shared_cases, quick=3000, thorough=150000)]
+            Arm("shared-arguments", eval_shared, shared_cases, quick=3000, thorough=150000),
+            Arm("stateful-streams", eval_stateful, stateful_cases, quick=2500, thorough=100000)]
 
 
 REQUIRED_CLASSES = ["success-after-failure", "generator-abandoned", "call:dump", "call:emit", "call:serialize", "call:load_all",
